@@ -859,10 +859,14 @@ class StmtMixin:
         out = []
         for label, expr in inv:
             try:
-                names = {n.id for n in _ast.walk(_ast.parse(expr, mode="eval")) if isinstance(n, _ast.Name)}
+                tree = _ast.parse(expr, mode="eval")
+                names = {n.id for n in _ast.walk(tree) if isinstance(n, _ast.Name)}
+                # bound variables of quantifiers are not program names
+                names -= {n.args[0].id for n in _ast.walk(tree) if isinstance(n, _ast.Call) and isinstance(n.func, _ast.Name)
+                          and n.func.id in ("forall", "exists", "forall_atoms") and n.args and isinstance(n.args[0], _ast.Name)}
             except SyntaxError:
                 names = set()
-            missing = {n for n in names if n not in known and n not in defs and n not in lets and not n.startswith("_it") and n not in SPEC_NAMES and n not in self.specfuns}
+            missing = {n for n in names if n not in known and n not in defs and n not in lets and not n.startswith(("_it", "_done")) and n not in SPEC_NAMES and n not in self.specfuns}
             if missing:
                 self.assumption_log.add(f"{fr.qualname}: invariant conjunct loop#{k}/{label} dropped - it mentions {sorted(missing)}, which the code no longer has")
                 continue
